@@ -33,7 +33,13 @@ CLAIM = {
              "hand-written boundary documents, generated documents under changes that cannot matter (full C18 oracle on the real "
              "output) or must break decoding (real code must answer XML), and the model's canonical rendering (the real decoder reads "
              "render d as d); shape, acceptance by the real report::process and the closing balance are checked on the real output by a "
-             "Python oracle that does not use the model."),
+             "Python oracle that does not use the model. Original amounts (third session): C18_original_amount_kept - a detail whose AmtDtls/TxAmt is in ANOTHER currency than the booked "
+             "amount is imported with that original amount as its transferred (counter) amount, signed like the detail, WHATEVER the two numbers "
+             "are (equal included): xmlnode::Amount compares number and currency; C18_original_amount_rate - the statement's CcyXchg rate is "
+             "what the posting of the rate's target currency carries (`@ rate source`); withAmountDetails_same (an original amount equal in "
+             "number and currency changes nothing) and _rate_same_currency (a rate between a currency and itself fails the import). The "
+             "generated statements carry such details (either quoting direction, no rate, rate 1) and the real command `okane import` "
+             "(cmd::ImportCmd::run on files) is compared with the library path on every main-stream case."),
     "note": "Trusted base after this change: the regex engine (matches computed with Python re), YAML decoding of the configuration, and "
             "UTF-8 input (the model's input is a String). XML decoding is IN the model, except where the model explicitly declines "
             "(decoded=unsupported, counted by the check, never on generated documents): a tag containing `:nil`, `xmlns:xml` or a reserved "
@@ -57,7 +63,9 @@ THEOREMS = ["Okane.Import.C18_shape_opening", "Okane.Import.C18_shape_entry", "O
             "Okane.Import.CamtXml.walk_append", "Okane.Import.CamtXml.walk_unknown_ignored", "Okane.Import.CamtXml.walk_unknown_after_list",
             "Okane.Import.CamtXml.walk_unknown_breaks_list", "Okane.Import.CamtXml.walk_swap", "Okane.Import.CamtXml.walk_congr",
             "Okane.Import.CamtXml.entry_fields_commute", "Okane.Import.CamtXml.decEntry_unknown_ignored",
-            "Okane.Import.CamtXml.decodeCamt_render", "Okane.Xml.readRoot_print", "Okane.Xml.unescape_escape", "Okane.Xml.escape_clean"]
+            "Okane.Import.CamtXml.decodeCamt_render", "Okane.Xml.readRoot_print", "Okane.Xml.unescape_escape", "Okane.Xml.escape_clean",
+            "Okane.Import.C18_original_amount_kept", "Okane.Import.C18_original_amount_rate", "Okane.Import.withAmountDetails_foreign",
+            "Okane.Import.withAmountDetails_same", "Okane.Import.withAmountDetails_rate_same_currency"]
 
 ACCOUNT = "Assets:Okane Bank"
 FAMILIES = ["ICDT", "RCDT", "RDDT"]
